@@ -67,6 +67,10 @@ func NewPAT(patBytes []byte) (PAT, error) {
 		if err != nil {
 			return nil, err
 		}
+		// the payload of the packet must hold a complete (empty) PAT as well
+		if len(patBytes) < 13 {
+			return nil, gots.ErrInvalidPATLength
+		}
 	}
 
 	return pat(patBytes), nil
@@ -95,6 +99,10 @@ func (pat pat) ProgramMap() map[int]int {
 	counter := 8 // skip table id et al
 
 	for i := 0; i < pat.NumPrograms(); i++ {
+		if counter+4 >= len(pat) {
+			// section_length announces more entries than there are bytes
+			break
+		}
 		pn := (int(pat[counter+1]) << 8) | int(pat[counter+2])
 
 		// ignore the top three (reserved) bits
